@@ -219,6 +219,10 @@ func main() {
 		probeFacts(os.Args[2])
 		return
 	}
+	if len(os.Args) >= 3 && os.Args[1] == "ast" {
+		dumpAST(os.Args[2])
+		return
+	}
 	if len(os.Args) < 3 || os.Args[1] != "axioms" {
 		fmt.Fprintln(os.Stderr, "usage: wprobe axioms <data.go> | wprobe facts <programs.json>")
 		os.Exit(2)
